@@ -13,6 +13,31 @@ structure Extends (E E' : Ds) : Prop where
   vars : ∃ nv, E'.vars = E.vars ++ nv ∧ ∀ v ∈ nv, v.name ∉ E.varNames
   dims : ∃ nd, E'.dims = E.dims ++ nd ∧ ∀ d ∈ nd, d.name ∉ E.dimNames
 
+/-- The same dimension, longer at most — and only if it is unlimited. -/
+def Dim.grownFrom (D' D : Dim) : Prop :=
+  D'.name = D.name ∧ D'.unlim = D.unlim ∧ D.size ≤ D'.size ∧ (D.unlim = false → D'.size = D.size)
+
+/-- Position by position. -/
+def DimsGrown : List Dim → List Dim → Prop
+  | [], [] => True
+  | D' :: t', D :: t => D'.grownFrom D ∧ DimsGrown t' t
+  | _, _ => False
+
+/-- What netCDF alone guarantees of any sequence of `createDimension` / `createVariable` / data writes on an open
+dataset: as `Extends`, except that an unlimited dimension may have become longer (every variable on it is
+then padded: the old variables are *not* what they were). -/
+structure ExtendsGrown (E E' : Ds) : Prop where
+  gattrs : E'.gattrs = E.gattrs
+  vars : ∃ nv, E'.vars = E.vars ++ nv ∧ ∀ v ∈ nv, v.name ∉ E.varNames
+  dims : ∃ old nd, E'.dims = old ++ nd ∧ DimsGrown old E.dims ∧ ∀ d ∈ nd, d.name ∉ E.dimNames
+
+/-- The array written to a new variable has, along every unlimited dimension of the dataset `E`, exactly the
+current length of that dimension (position by position; the two lists have the same length). -/
+def ShapeOK (E : Ds) : List Name → List Nat → Prop
+  | [], [] => True
+  | d :: ds, n :: ns => (∀ D ∈ E.dims, D.unlim = true → D.name = d → n = D.size) ∧ ShapeOK E ds ns
+  | _, _ => False
+
 /-- The documentation of `cfdm.write(mode='a')`: fields with netCDF groups cannot be appended (the
 code can only meet them in a NETCDF4 request); fields whose featureType is incompatible with the
 dataset's cannot be appended.  Global attributes are never rewritten, so "incompatible" is: the
